@@ -77,6 +77,16 @@ class APEBadItemError(error):
     pass
 
 
+def _seek_back(fileobj, offset):
+    """Like fileobj.seek(-offset, 1), but raises IOError on every kind of
+    file object if that lies in front of the start of the file (io.BytesIO
+    would stop at offset 0 instead)"""
+
+    if fileobj.tell() < offset:
+        raise IOError("seek in front of the start of the file")
+    fileobj.seek(-offset, 1)
+
+
 class _APEv2Data(object):
     # Store offsets of the important parts of the file.
     start = header = data = footer = end = None
@@ -120,10 +130,10 @@ class _APEv2Data(object):
         # Try to find a header or footer.
 
         # Check for a simple footer.
+        fileobj.seek(0, 2)
         try:
-            fileobj.seek(-32, 2)
+            _seek_back(fileobj, 32)
         except IOError:
-            fileobj.seek(0, 2)
             return
         if fileobj.read(8) == b"APETAGEX":
             fileobj.seek(-8, 1)
@@ -137,7 +147,7 @@ class _APEv2Data(object):
             fileobj.seek(-128, 2)
             if fileobj.read(3) == b"TAG":
 
-                fileobj.seek(-35, 1)  # "TAG" + header length
+                _seek_back(fileobj, 35)  # "TAG" + header length
                 if fileobj.read(8) == b"APETAGEX":
                     fileobj.seek(-8, 1)
                     self.footer = fileobj.tell()
@@ -154,7 +164,7 @@ class _APEv2Data(object):
                     except ValueError:
                         raise IOError
 
-                    fileobj.seek(-32 - offset - 6, 1)
+                    _seek_back(fileobj, 32 + offset + 6)
                     if fileobj.read(8) == b"APETAGEX":
                         fileobj.seek(-8, 1)
                         self.footer = fileobj.tell()
@@ -223,7 +233,7 @@ class _APEv2Data(object):
             # Clean up broken writing from pre-Mutagen PyMusepack.
             # It didn't remove the first 24 bytes of header.
             try:
-                fileobj.seek(-24, 1)
+                _seek_back(fileobj, 24)
             except IOError:
                 break
             else:
